@@ -9,8 +9,8 @@ import (
 	"strings"
 	"time"
 
-	jobSource "github.com/mimiro-io/datahub/internal/jobs/source"
 	"github.com/mimiro-io/datahub/internal/conf"
+	jobSource "github.com/mimiro-io/datahub/internal/jobs/source"
 	"github.com/mimiro-io/datahub/internal/server"
 	"github.com/mimiro-io/datahub/internal/verifrt/engine"
 	"github.com/mimiro-io/datahub/internal/verifrt/vsync"
